@@ -29,7 +29,9 @@ BASES = [
     "incremental",
     [mrec("", "d", ["dd"], ["d1"]), mrec("b", "y", ["b1"]), mrec("c", "z")],   # the empty (default) prefix is a legal canonical prefix
     [mrec("a", "x", ["a1", "b1"], ["x1"]), mrec("b", "y"), mrec("c", "z")],          # vocabulary of base 0, grouped differently
+    [mrec(f"p{i}", f"u{i}", [f"s{i}"]) for i in range(9)],                           # many records: dictionaries touching up to 9 groups ("wide" units only)
 ]
+WIDE = 5
 SHADOW = {0: 4}   # every dictionary applied to base 0 is applied to base 4 right afterwards in the same process
 NAMES = ["a", "b", "c", "a1", "b1", "n", "m"]
 NAMES_BY_BASE = {3: ["", "b", "c", "dd", "b1", "n", "m"]}
@@ -43,7 +45,7 @@ def make_base(k):
     if BASES[k] == "incremental":
         conv = Converter([])
         conv.add_prefix("c", "z")
-        conv.add_prefix("a", "x")
+        conv.add_record(Record(prefix="a", uri_prefix="x"))   # synonym fields never set explicitly; they arrive through merges
         conv.add_record(Record(prefix="a", uri_prefix="x1"), merge=True)
         conv.add_record(Record(prefix="a1", uri_prefix="x"), merge=True)
         conv.add_prefix("b", "y")
@@ -89,10 +91,43 @@ def check_long_chain(ctx=None):
     return fails
 
 
+def wide_cases():
+    """Dictionaries touching 1..9 groups of the 9-record base: all applicable, and with one duplicate key / duplicate value /
+    inconsistent pair planted in group j; each in three key orders."""
+    out = []
+    for k in range(1, 10):
+        good = [[f"p{i}", f"n{i}"] for i in range(k)]
+        variants = [good]
+        for j in range(k):
+            variants.append(good + [[f"s{j}", f"m{j}"]])                          # two keys of one record
+            variants.append(good[:j] + [[f"s{j}", f"n{j}"]] + good[j + 1:])      # synonym as key
+            if j + 1 < k:
+                variants.append(good[:j] + [[f"p{j}", f"n{j + 1}"]] + good[j + 1:])   # two records to one new name
+            variants.append(good[:j] + [[f"p{j}", f"s{(j + 1) % 9}"]] + good[j + 1:])  # onto a name owned by another record
+        for v in variants:
+            for order in (v, v[::-1], v[len(v) // 2:] + v[: len(v) // 2]):
+                out.append({"base": WIDE, "pairs": [list(p) for p in order], "twice": True})
+    return out
+
+
+def two_chain_cases():
+    """Two disjoint two-link chains in one dictionary (k2 -> k1 -> new), every choice of links among 5 known names of base 0 (3 records) and of the 9-record base,
+    every key order."""
+    out = []
+    for b, known in ((0, ["a", "b", "c", "a1", "b1"]), (WIDE, ["p0", "p1", "p2", "s3", "p4"])):
+        for k1, k2, l1, l2 in it.permutations(known, 4):
+            base = [[k1, "n"], [k2, k1], [l1, "m"], [l2, l1]]
+            for perm in it.permutations(base):
+                out.append({"base": b, "pairs": [list(p) for p in perm], "twice": True})
+    return out
+
+
 def units(tier, seed):
     us = [{"kind": "long-chain"}]
+    us += [{"kind": "cases", "gen": "wide", "part": i, "of": 4} for i in range(4)]
+    us += [{"kind": "cases", "gen": "two-chain", "part": i, "of": 8} for i in range(8)]
     for b in range(len(BASES)):
-        if b in SHADOW.values():
+        if b in SHADOW.values() or b == WIDE:
             continue
         for n in range(1, max_pairs(tier) + 1):
             keysets = list(it.combinations(names(b), n))
@@ -216,6 +251,18 @@ def check(base_idx, pairs, twice=False, ctx=None):
             r2 = by_uri.get(r.uri_prefix)
             if r2 is not None and r2.prefix != v:
                 fails.append(("applicable-pair-not-applied", f"{w}: {k!r}->{v!r} is applicable and {v!r} was unused, but the record is named {r2.prefix!r}"))
+        for k, v in pairs:
+            # hand-over: v is the key of an applicable pair v->w that renames another record to an unused name w,
+            # so v is free and k's record takes it as its canonical prefix
+            r, rv_owner = before.owner(k), before.owner(v)
+            if r is None or rv_owner is None or rv_owner.uri_prefix == r.uri_prefix or v not in remapping:
+                continue
+            wnew = remapping[v]
+            if before.owner(wnew) is not None or wnew in remapping or targets.count(wnew) > 1 or targets.count(v) > 1:
+                continue
+            r2, o2 = by_uri.get(r.uri_prefix), by_uri.get(rv_owner.uri_prefix)
+            if r2 is not None and o2 is not None and (r2.prefix != v or o2.prefix != wnew):
+                fails.append(("handed-over-name-not-taken", f"{w}: {v!r}->{wnew!r} frees {v!r} and {k!r}->{v!r} claims it, but the records are named {o2.prefix!r} and {r2.prefix!r}"))
         if not (set(remapping) & set(remapping.values())) and not reasons:
             exp = reference_nontransitive(before, sorted(pairs))
             if after.record_set() != exp.record_set():
@@ -255,6 +302,15 @@ def run_unit(unit, ctx):
     if unit.get("kind") == "long-chain":
         for sig, msg in check_long_chain(ctx):
             ctx.violation("C11/" + sig, msg, {"kind": "long-chain"})
+        return
+    if unit.get("kind") == "cases":
+        cases = wide_cases() if unit["gen"] == "wide" else two_chain_cases()
+        for i, case in enumerate(cases):
+            if i % unit["of"] != unit["part"]:
+                continue
+            ctx.count(unit["gen"].replace("-", "_") + "_cases")
+            for sig, msg in check(case["base"], case["pairs"], True, ctx)[:2]:
+                ctx.violation("C11/" + sig, msg, case)
         return
     n = unit["n"]
     for keys in unit["keysets"]:
